@@ -350,7 +350,47 @@ class Exec:
             if not nxt:
                 yield st, fr, 'exit'; continue
             if len(nxt) > 1 and B.term == 'SwitchStmt':
-                raise Inconclusive('switch statement in evaluated function', fr.fn.shortloc())
+                # switch (v): the successors are the blocks that start with a case / default label (no default: the last successor is the
+                # statement after the switch).  A value the evaluator knows selects its case; otherwise every target is explored.
+                sv = None
+                if B.cond is not None:
+                    sv = fr.vals.get(B.cond.id)
+                    if sv is None: sv = self._eval(B.cond, st, fr)
+                    if isinstance(sv, Ref): sv = self.read(sv.loc, st, B.cond)
+                labelled = [(s_, cfg.blocks[s_]) for s_ in nxt]
+                if any(getattr(TB, 'label', None) == 'case-range' for _, TB in labelled) or not hasattr(labelled[0][1], 'label'):
+                    raise Inconclusive('switch statement with case ranges in evaluated function', fr.fn.shortloc())
+                def case_key(TB):
+                    lv = TB.labelv
+                    while lv is not None and lv.k in ('cast', 'paren', 'constexpr') and lv.n('sub') is not None: lv = lv.n('sub')
+                    if lv is None: return None, None
+                    nm = (lv.qname or lv.name or '').split('::')[-1] if lv.k == 'ref' else None
+                    cv = lv.d.get('const', lv.d.get('v'))
+                    return nm, cv
+                chosen = None
+                sname = sv.name if isinstance(sv, Enum) else None
+                sconst = sv.c if isinstance(sv, Lin) and sv.is_const() else (int(sv) if isinstance(sv, (int, bool)) else None)
+                if sname is not None or sconst is not None:
+                    for s_, TB in labelled:
+                        if TB.label == 'case':
+                            nm, cv = case_key(TB)
+                            if (sname is not None and nm is not None and str(sname).split('::')[-1] == nm) or (sconst is not None and cv is not None and cv == sconst): chosen = s_; break
+                    if chosen is None:
+                        dflt = [s_ for s_, TB in labelled if TB.label == 'default']
+                        unl = [s_ for s_, TB in labelled if TB.label is None]
+                        chosen = (dflt or unl or [None])[0]
+                targets = [chosen] if chosen is not None else [s_ for s_, _ in labelled]
+                for tgt in targets:
+                    st2 = st.clone() if len(targets) > 1 else st
+                    fr2 = self._clone_frame(fr, dict(fr.vals)) if len(targets) > 1 else fr
+                    TB = cfg.blocks[tgt]
+                    if len(targets) > 1:
+                        st2.unknown_atoms.append(B.cond if B.cond is not None else B.termstmt)
+                        st2.decisions.append((B.cond if B.cond is not None else B.termstmt, (case_key(TB)[0] or TB.label or 'after'), 'fork'))
+                    vis = dict(visits); vis[tgt] = vis.get(tgt, 0) + 1
+                    if vis[tgt] > self.dom.loop_unroll + 4: continue
+                    work.append((tgt, 0, st2, fr2, vis))
+                continue
             tgt = nxt[0]
             vis = dict(visits); vis[tgt] = vis.get(tgt, 0) + 1
             if vis[tgt] > self.dom.loop_unroll + 1:
